@@ -36,6 +36,10 @@ pub struct Case {
     pub use_log_gain: bool,
     /// [gain or log gain, w_1..w_m]
     pub lsp: Vec<f64>,
+    /// Some((stage, alpha)): immediately before the measurement ANOTHER vocoder on the same thread
+    /// renders the same frequencies with this stage and alpha (history between objects)
+    #[serde(default)]
+    pub decoy: Option<(usize, f64)>,
 }
 
 pub fn gen_lsp(t: &mut Tape, m: usize) -> Vec<f64> {
@@ -67,7 +71,7 @@ impl Prop for LspSpectrum {
         "LSP order 2..24 (even and odd), stage 1..4, alpha in {0} u [0,0.6], linear or log gain in [0.3,3] (15 %: log-uniform in [1e-4,1e6]), increasing LSPs with random (a third: crowded, strongly resonant) spacing >= 1.01*pi/(4(m+1)); pulse response (frame 1 and 2) finite, decaying and with log-magnitude ln K - s ln|A(e^{j w~})| within 0.001 neper on the frequencies within 100 dB of the peak. Non-trivial: reference response decays inside the window".into()
     }
     fn tape_len(&self, _: Tier) -> usize {
-        64
+        72
     }
     fn cases(&self, tier: Tier) -> u32 {
         tier.pick(5_000, 100_000)
@@ -90,12 +94,18 @@ impl Prop for LspSpectrum {
         };
         let mut lsp = vec![if use_log_gain { gain.ln() } else { gain }];
         lsp.extend(gen_lsp(t, m));
-        Case { rate, alpha, stage, use_log_gain, lsp }
+        let decoy = if t.chance(0.3) { Some((t.urange(1, 4), gen_alpha(t))) } else { None };
+        Case { rate, alpha, stage, use_log_gain, lsp, decoy }
     }
     fn check(&self, c: &Case) -> Result<Report, Failure> {
         let gain = if c.use_log_gain { c.lsp[0].exp() } else { c.lsp[0] };
         let a = lsp_to_lpc(&c.lsp[1..]);
         let model = |w: f64| lsp_logmag(gain, &a, c.stage, c.alpha, w);
+        if let Some((st, al)) = c.decoy {
+            let mut other = c.lsp.clone();
+            other[0] = if c.use_log_gain { 0.3 } else { 1.3 };
+            let _ = measure_pulse(&other, st, c.use_log_gain, c.rate, al, 0.0, 1.0);
+        }
         let m = measure_pulse(&c.lsp, c.stage, c.use_log_gain, c.rate, c.alpha, 0.0, 1.0);
         // reference minimum-phase response; must be free of time aliasing on the FFT grid
         let n = 65536;
@@ -163,6 +173,7 @@ impl Prop for LspSpectrum {
         rep.class_if(!(1e-2..=1e2).contains(&gain), "extreme-gain");
         rep.metric("peak_output_magnitude", m.frame1.iter().fold(0.0f64, |a, x| a.max(x.abs())));
         rep.class_if(c.alpha == 0.0, "alpha=0");
+        rep.class_if(c.decoy.is_some(), "after-another-vocoder-with-the-same-frequencies");
         Ok(rep)
     }
 }
@@ -202,7 +213,7 @@ impl Prop for LspAfterHistory {
         lsp.extend(gen_lsp(t, m));
         let k2 = rate / 20;
         let (history, mode) = crate::dsp::gen_spectrum_history(t, &lsp, k2 / 2, true);
-        HistCase { base: Case { rate, alpha, stage, use_log_gain, lsp }, mode, history }
+        HistCase { base: Case { rate, alpha, stage, use_log_gain, lsp, decoy: None }, mode, history }
     }
     fn check(&self, c: &HistCase) -> Result<Report, Failure> {
         let b = &c.base;
@@ -282,7 +293,7 @@ impl Prop for LspVoiceEngine {
     }
     fn decode(&self, t: &mut Tape, _: Tier) -> Self::Case {
         let base = crate::engine_case::gen_engine_case(t, 12, 0, false, crate::voice::GenOpts { lsp: Some(true), ..Default::default() });
-        super::c01::Case { base, alignment: false, times: None }
+        super::c01::Case { base, alignment: false, times: None, prior_voice: None }
     }
     fn check(&self, c: &Self::Case) -> Result<Report, Failure> {
         super::c01::Synthesis.check(c)
